@@ -253,6 +253,42 @@ fn same_binding_twice(acc: &mut Acc) {
     }
 }
 
+/// Import sets over a library that defines and exports a syntax-rules keyword next to its values:
+/// the values are bound under the names the algebra yields whether or not the keyword is imported.
+fn library_with_keyword(acc: &mut Acc) {
+    let src = "(define-library (kwlib) (import (scheme base)) (export swap! helper one) (begin (define one 1) (define (helper a) (list a one)) (define-syntax swap! (syntax-rules () ((swap! a b) (list b a))))))";
+    let lname = LibraryName(vec![ruschm::parser::LibraryNameElement::Identifier("kwlib".into())]);
+    for (decl, probes) in [
+        ("(import (kwlib))", vec![("one", "1"), ("(helper 2)", "(2 1)")]),
+        ("(import (only (kwlib) helper one))", vec![("one", "1"), ("(helper 2)", "(2 1)")]),
+        ("(import (except (kwlib) swap!))", vec![("one", "1"), ("(helper 3)", "(3 1)")]),
+        ("(import (prefix (kwlib) k-))", vec![("k-one", "1"), ("(k-helper 2)", "(2 1)")]),
+        ("(import (rename (kwlib) (one uno) (swap! exchange!)))", vec![("uno", "1"), ("(helper 2)", "(2 1)")]),
+        ("(import (only (kwlib) swap!) (only (kwlib) one))", vec![("one", "1")]),
+    ] {
+        let mut it = Interp::must_new();
+        match guarded(|| LibraryFactory::from_char_stream(&lname, src.chars())) {
+            Ok(Ok(f)) => it.it.register_library_factory(f),
+            other => {
+                acc.mismatch(Mismatch { idx: 8_100_000, case: src.to_string(), expected: "the library definition is accepted".into(), observed: format!("{:?}", other.map(|r| r.map(|_| "factory").map_err(|e| e.to_string()))), payload: json!({"declaration": src, "library_name": "kwlib-facet", "expected": {}}) }, None);
+                return;
+            }
+        }
+        acc.evals += 1;
+        acc.count("library exporting a keyword", 1);
+        let mut seen = vec![format!("{} => {}", decl, it.eval(decl))];
+        let mut ok = !seen[0].contains("error") && !seen[0].contains("PANIC");
+        for (p, want) in &probes {
+            let o = format!("{}", it.eval(p));
+            ok &= o == *want;
+            seen.push(format!("{} => {} (expected {})", p, o, want));
+        }
+        if !ok {
+            acc.mismatch(Mismatch { idx: 8_100_001, case: format!("[library exporting a keyword] {}\n  where {}", decl, src), expected: "the declaration is accepted and the probes give the library's values".into(), observed: seen.join(" ; "), payload: json!({"declaration": decl, "library_name": "kwlib-facet", "expected": {}}) }, None);
+        }
+    }
+}
+
 /// Scale ladder: a library with N exports for every N <= max and import sets that name all / every
 /// other / one of them, rename them in a chain, a full rotation, a swap among N-2 other pairs (in
 /// both orders of the pairs), prefixed and nested. Expected bindings from the algebra on name -> value.
@@ -416,6 +452,7 @@ pub fn run(ctx: &Ctx) -> i32 {
     let nterms = acc.states;
     acc.merge(scale_phase(scale));
     same_binding_twice(&mut acc);
+    library_with_keyword(&mut acc);
     let _ = std::fs::remove_dir_all(scratch());
     report::finish(
         acc,
@@ -424,7 +461,7 @@ pub fn run(ctx: &Ctx) -> i32 {
             tier: ctx.tier_name(),
             seed: ctx.seed,
             exhaustive: true,
-            rule: "every import-set term of nesting depth <= D over a library exporting a b c d: only / except with every subset of the current names, prefixes p-, q- and the empty prefix, rename with every injective partial map of <= 2 current names into the current names + {e f} without duplicate results (swaps, chains, both orders of the pairs); each term with the library supplied natively, as registered source and as a file; every ordered pair of depth-<=1 terms in one declaration and as two declarations in sequence on one interpreter (the later one re-binds), and as the two import sets of a library that re-exports what it imports; each declaration on two interpreter instances; the same binding (a NaN, -0.0, a vector, a procedure, lists, the empty string, a symbol) brought in twice by overlapping import sets of one declaration; scale ladder: a library with N exports for every N <= 64 (thorough 300), imported whole / only / except (all, every other, one) / prefixed / renamed in a chain, a full rotation and a swap among N-2 other pairs, both orders of the pairs, also nested in prefix and only; states = terms, distinct = distinct binding sets".into(),
+            rule: "every import-set term of nesting depth <= D over a library exporting a b c d: only / except with every subset of the current names, prefixes p-, q- and the empty prefix, rename with every injective partial map of <= 2 current names into the current names + {e f} without duplicate results (swaps, chains, both orders of the pairs); each term with the library supplied natively, as registered source and as a file; every ordered pair of depth-<=1 terms in one declaration and as two declarations in sequence on one interpreter (the later one re-binds), and as the two import sets of a library that re-exports what it imports; each declaration on two interpreter instances; the same binding (a NaN, -0.0, a vector, a procedure, lists, the empty string, a symbol) brought in twice by overlapping import sets of one declaration; import sets over a library that also exports a syntax-rules keyword; scale ladder: a library with N exports for every N <= 64 (thorough 300), imported whole / only / except (all, every other, one) / prefixed / renamed in a chain, a full rotation and a swap among N-2 other pairs, both orders of the pairs, also nested in prefix and only; states = terms, distinct = distinct binding sets".into(),
             bounds: json!({"depth": depth, "terms": nterms, "supply_modes": MODES.len(), "union_pairs": npairs, "scale_ladder_max_exports": scale}),
             assumptions: vec!["hash seeds cannot be enumerated: two instances per declaration are a sample of the seed space, the term space is exhaustive".into()],
             wall_s: ctx.elapsed(),
@@ -435,6 +472,14 @@ pub fn run(ctx: &Ctx) -> i32 {
 
 pub fn replay(p: &serde_json::Value) -> bool {
     let decl = p["declaration"].as_str().unwrap();
+    if p["library_name"] == "kwlib-facet" {
+        let mut acc = Acc::new();
+        library_with_keyword(&mut acc);
+        for v in &acc.violations {
+            println!("{}\n  {}", v.case, v.observed);
+        }
+        return acc.n_violations > 0;
+    }
     if p["library_name"] == "vals-needs-base" {
         // (the same-binding-twice facet runs on an interpreter with the standard library)
         let mut acc = Acc::new();
